@@ -101,4 +101,49 @@ MUTANTS = [
             result |= dispatch_table::internal_dispatch""", """if (result != process_result::HANDLED_DEFERRED)
         {
             result |= dispatch_table::internal_dispatch""")]),
+
+ dict(name='gate-back-after-queue', prop='C11', rule='C11.gate', edits=[(B, """        // if the state machine has terminate or interrupt flags, check them, otherwise skip
+        if (is_event_handling_blocked_helper<Event>
+                ( ::boost::mpl::bool_<has_fsm_blocking_states<library_sm>::type::value>() ) )
+        {
+            return HANDLED_TRUE;
+        }
+
+        // if a message queue is needed and processing is on the way
+        if (!do_pre_msg_queue_helper<Event>
+                (evt,::boost::mpl::bool_<is_no_message_queue<library_sm>::type::value>()))
+        {
+            // wait for the end of current processing
+            return HANDLED_TRUE;
+        }
+""", """        // if a message queue is needed and processing is on the way
+        if (!do_pre_msg_queue_helper<Event>
+                (evt,::boost::mpl::bool_<is_no_message_queue<library_sm>::type::value>()))
+        {
+            // wait for the end of current processing
+            return HANDLED_TRUE;
+        }
+        // if the state machine has terminate or interrupt flags, check them, otherwise skip
+        if (is_event_handling_blocked_helper<Event>
+                ( ::boost::mpl::bool_<has_fsm_blocking_states<library_sm>::type::value>() ) )
+        {
+            return HANDLED_TRUE;
+        }
+""")]),
+ dict(name='gate-mp11-no-endint', prop='C11', rule='C11.gate', edits=[(MP, """            if (is_flag_active<InterruptedFlag>() &&
+                !is_end_interrupt_event(event))""", """            if (is_flag_active<InterruptedFlag>())""")]),
+ dict(name='gate-back11-nondecayed', prop='C11', rule='C11.type', edits=[(B11, "if (is_event_handling_blocked_helper<typename std::decay<Event>::type>", "if (is_event_handling_blocked_helper<Event>")]),
+ dict(name='catch-back-handled-true', prop='C12', rule='C12.catch', edits=[(B, """            this->exception_caught(evt,*this,e);
+            return ::boost::msm::back::HANDLED_FALSE;""", """            this->exception_caught(evt,*this,e);
+            return ::boost::msm::back::HANDLED_TRUE;""")]),
+ dict(name='catch-mp11-no-try', prop='C12', rule='C12.catch', edits=[(MP, """            try
+            {
+                result = do_process_event(event, info);
+            }
+            catch (std::exception& e)
+            {
+                // give a chance to the concrete state machine to handle
+                this->exception_caught(event, get_fsm_argument(), e);
+                result = process_result::HANDLED_FALSE;
+            }""", """            result = do_process_event(event, info);""")]),
 ]
